@@ -6,104 +6,251 @@
 // starting with '.'). Each is a fixed byte array with an explicit length.
 //
 // Assumed contract (part of every claim that uses it, DESIGN.md §3.2):
-//  * one file call is atomic; the OS applies calls in program order;
+//  * one file call is atomic (optionally: a strict prefix of the interrupted
+//    `write_all` reached the file -- `torn`); the OS applies calls in order;
 //  * `set_len` growth and writing past the end zero-fill the gap;
-//  * `read_exact` past the end fails with `UnexpectedEof` and leaves the cursor
-//    position unspecified-but-valid (here: unchanged);
-//  * a call that would exceed `CAP` bytes is outside the bound (`kani::assume`).
+//  * `read_exact` past the end fails with `UnexpectedEof`;
+//  * bounds of the model (`kani::assume`, i.e. outside every claim): a file never
+//    exceeds CAP bytes; one `write_all`/`read_exact` moves at most SMALL bytes;
+//    one call grows a file by at most SMALL bytes.
 //
 // Crash points: every *mutating* call (`write_all`, `set_len`) first passes
 // `before_mutation()`. When the running count of mutating calls equals
-// `crash_at`, both files are copied to `snapshot` -- the state a process dying
-// immediately before that call would leave behind.
+// `crash_at`, both files are copied to the snapshot -- the state a process
+// dying immediately before that call would leave behind.
 //
-// Invariant kept by the model: bytes at offsets >= len are zero.
+// Implementation notes (they matter for CBMC): every piece of state is its own
+// static so that constant propagation survives; there is no memcpy with a
+// symbolic length (it would turn the whole object symbolic) and no loop: copies
+// are SMALL guarded assignments, unrolled by macro.
 
 use std::io::{Error, ErrorKind, Result, SeekFrom};
 
-pub const CAP: usize = 96;
+pub const CAP: usize = 64;
+pub const SMALL: usize = 8;
 
-#[derive(Clone, Copy)]
-pub struct FileState {
-    pub data: [u8; CAP],
-    pub len: usize,
+macro_rules! unroll16 {
+    ($i:ident, $body:block) => {
+        { let $i: usize = 0; $body }
+        { let $i: usize = 1; $body }
+        { let $i: usize = 2; $body }
+        { let $i: usize = 3; $body }
+        { let $i: usize = 4; $body }
+        { let $i: usize = 5; $body }
+        { let $i: usize = 6; $body }
+        { let $i: usize = 7; $body }
+    };
 }
 
-pub const EMPTY_FILE: FileState = FileState {
-    data: [0; CAP],
-    len: 0,
-};
-
-pub struct Fs {
-    pub files: [FileState; 2],
-    /// number of mutating calls performed so far
-    pub step: u32,
-    /// snapshot is taken just before the mutating call with this ordinal
-    pub crash_at: u32,
-    pub snapshot: [FileState; 2],
-    pub snapped: bool,
-    /// number of mutating calls on the data file / on the log
-    pub data_mutations: u32,
-    pub log_mutations: u32,
-    /// `step` value at the time of the first data-file mutation (u32::MAX: none)
-    pub first_data_mutation_step: u32,
-}
-
-pub static mut FS: Fs = Fs {
-    files: [EMPTY_FILE; 2],
-    step: 0,
-    crash_at: u32::MAX,
-    snapshot: [EMPTY_FILE; 2],
-    snapped: false,
-    data_mutations: 0,
-    log_mutations: 0,
-    first_data_mutation_step: u32::MAX,
-};
+pub static mut DATA: [u8; CAP] = [0; CAP];
+pub static mut DATA_LEN: usize = 0;
+pub static mut LOG: [u8; CAP] = [0; CAP];
+pub static mut LOG_LEN: usize = 0;
+pub static mut SNAP_DATA: [u8; CAP] = [0; CAP];
+pub static mut SNAP_DATA_LEN: usize = 0;
+pub static mut SNAP_LOG: [u8; CAP] = [0; CAP];
+pub static mut SNAP_LOG_LEN: usize = 0;
+/// number of mutating calls performed so far
+pub static mut STEP: u32 = 0;
+/// the snapshot is taken just before the mutating call with this ordinal
+pub static mut CRASH_AT: u32 = u32::MAX;
+pub static mut SNAPPED: bool = false;
+/// `STEP` at the time of the first data-file mutation (u32::MAX: none yet)
+pub static mut FIRST_DATA_MUTATION_STEP: u32 = u32::MAX;
+/// torn write: if the crash point is a `write_all`, this many leading bytes of
+/// that write (only if strictly less than its length) reached the file.
+pub static mut TORN: usize = 0;
+/// `STEP` at which the snapshot was taken (u32::MAX: none, or taken "now")
+pub static mut SNAP_STEP: u32 = u32::MAX;
+/// number of log-file mutations so far / at the time of the first data mutation
+pub static mut LOG_MUTATIONS: u32 = 0;
+pub static mut LOG_MUTATIONS_AT_FIRST_DATA_MUTATION: u32 = u32::MAX;
 
 #[allow(static_mut_refs)]
-pub fn fs() -> &'static mut Fs {
-    unsafe { &mut FS }
+pub fn data_len() -> usize {
+    unsafe { DATA_LEN }
+}
+#[allow(static_mut_refs)]
+pub fn log_len() -> usize {
+    unsafe { LOG_LEN }
+}
+#[allow(static_mut_refs)]
+pub fn data_byte(i: usize) -> u8 {
+    unsafe { DATA[i] }
+}
+#[allow(static_mut_refs)]
+pub fn log_byte(i: usize) -> u8 {
+    unsafe { LOG[i] }
+}
+#[allow(static_mut_refs)]
+pub fn snapped() -> bool {
+    unsafe { SNAPPED }
+}
+#[allow(static_mut_refs)]
+pub fn step() -> u32 {
+    unsafe { STEP }
+}
+#[allow(static_mut_refs)]
+pub fn crash_at() -> u32 {
+    unsafe { CRASH_AT }
+}
+#[allow(static_mut_refs)]
+pub fn torn() -> usize {
+    unsafe { TORN }
+}
+#[allow(static_mut_refs)]
+pub fn first_data_mutation_step() -> u32 {
+    unsafe { FIRST_DATA_MUTATION_STEP }
+}
+#[allow(static_mut_refs)]
+pub fn snap_step() -> u32 {
+    unsafe { SNAP_STEP }
+}
+#[allow(static_mut_refs)]
+pub fn log_mutations() -> u32 {
+    unsafe { LOG_MUTATIONS }
+}
+#[allow(static_mut_refs)]
+pub fn log_mutations_at_first_data_mutation() -> u32 {
+    unsafe { LOG_MUTATIONS_AT_FIRST_DATA_MUTATION }
 }
 
-/// Resets the model: data file = `data`, empty log, no crash point armed.
+#[allow(static_mut_refs)]
+pub fn snap_log_len() -> usize {
+    unsafe { SNAP_LOG_LEN }
+}
+#[allow(static_mut_refs)]
+pub fn snap_log_byte(i: usize) -> u8 {
+    unsafe { SNAP_LOG[i] }
+}
+#[allow(static_mut_refs)]
+pub fn snap_data_len() -> usize {
+    unsafe { SNAP_DATA_LEN }
+}
+#[allow(static_mut_refs)]
+pub fn snap_data_byte(i: usize) -> u8 {
+    unsafe { SNAP_DATA[i] }
+}
+/// little-endian u64 at `off` of the (live) log file
+pub fn log_u64(off: usize) -> u64 {
+    (log_byte(off) as u64)
+        | (log_byte(off + 1) as u64) << 8
+        | (log_byte(off + 2) as u64) << 16
+        | (log_byte(off + 3) as u64) << 24
+        | (log_byte(off + 4) as u64) << 32
+        | (log_byte(off + 5) as u64) << 40
+        | (log_byte(off + 6) as u64) << 48
+        | (log_byte(off + 7) as u64) << 56
+}
+
+/// Resets the model: data file = `data` (at most SMALL bytes), empty log, no
+/// crash point armed.
+#[allow(static_mut_refs)]
 pub fn reset(data: &[u8]) {
-    let f = fs();
-    f.files = [EMPTY_FILE; 2];
-    f.files[0].data[..data.len()].copy_from_slice(data);
-    f.files[0].len = data.len();
-    f.step = 0;
-    f.crash_at = u32::MAX;
-    f.snapshot = [EMPTY_FILE; 2];
-    f.snapped = false;
-    f.data_mutations = 0;
-    f.log_mutations = 0;
-    f.first_data_mutation_step = u32::MAX;
+    kani::assume(data.len() <= SMALL);
+    unsafe {
+        DATA = [0; CAP];
+        LOG = [0; CAP];
+        SNAP_DATA = [0; CAP];
+        SNAP_LOG = [0; CAP];
+        unroll16!(i, {
+            if i < data.len() {
+                DATA[i] = data[i];
+            }
+        });
+        DATA_LEN = data.len();
+        LOG_LEN = 0;
+        SNAP_DATA_LEN = 0;
+        SNAP_LOG_LEN = 0;
+        STEP = 0;
+        CRASH_AT = u32::MAX;
+        SNAPPED = false;
+        FIRST_DATA_MUTATION_STEP = u32::MAX;
+        TORN = 0;
+        SNAP_STEP = u32::MAX;
+        LOG_MUTATIONS = 0;
+        LOG_MUTATIONS_AT_FIRST_DATA_MUTATION = u32::MAX;
+    }
+}
+
+/// Sets the log file content (for harnesses that start from a given log).
+#[allow(static_mut_refs)]
+pub fn set_log(bytes: &[u8; CAP], len: usize) {
+    kani::assume(len <= CAP);
+    unsafe {
+        LOG = *bytes;
+        LOG_LEN = len;
+    }
+}
+
+/// Arms the crash point: the process dies immediately before the mutating call
+/// number `at` (counted from now), with `torn` bytes of that call applied.
+#[allow(static_mut_refs)]
+pub fn arm_crash(at: u32, torn: usize) {
+    unsafe {
+        STEP = 0;
+        FIRST_DATA_MUTATION_STEP = u32::MAX;
+        CRASH_AT = at;
+        TORN = torn;
+        SNAPPED = false;
+        SNAP_STEP = u32::MAX;
+        LOG_MUTATIONS = 0;
+        LOG_MUTATIONS_AT_FIRST_DATA_MUTATION = u32::MAX;
+    }
+}
+
+#[allow(static_mut_refs)]
+fn take_snapshot() {
+    unsafe {
+        SNAP_DATA = DATA;
+        SNAP_DATA_LEN = DATA_LEN;
+        SNAP_LOG = LOG;
+        SNAP_LOG_LEN = LOG_LEN;
+        SNAPPED = true;
+    }
+}
+
+/// A crash point that is not a file call: "the process dies now" (if it has not
+/// died before).
+pub fn crash_now_if_not_crashed() {
+    if !snapped() {
+        take_snapshot();
+    }
 }
 
 /// Replaces the live files with the crash snapshot ("the process died, the
 /// machine kept the files") and disarms the crash point.
+#[allow(static_mut_refs)]
 pub fn restore_snapshot() {
-    let f = fs();
-    f.files = f.snapshot;
-    f.crash_at = u32::MAX;
-    f.snapped = false;
+    unsafe {
+        DATA = SNAP_DATA;
+        DATA_LEN = SNAP_DATA_LEN;
+        LOG = SNAP_LOG;
+        LOG_LEN = SNAP_LOG_LEN;
+        CRASH_AT = u32::MAX;
+        SNAPPED = false;
+    }
 }
 
-fn before_mutation(slot: usize) {
-    let f = fs();
-    if f.step == f.crash_at && !f.snapped {
-        f.snapshot = f.files;
-        f.snapped = true;
-    }
-    if slot == 0 {
-        if f.first_data_mutation_step == u32::MAX {
-            f.first_data_mutation_step = f.step;
+/// returns true if the crash snapshot was taken right now
+#[allow(static_mut_refs)]
+fn before_mutation(slot: usize) -> bool {
+    unsafe {
+        let now = STEP == CRASH_AT && !SNAPPED;
+        if now {
+            take_snapshot();
+            SNAP_STEP = STEP;
         }
-        f.data_mutations += 1;
-    } else {
-        f.log_mutations += 1;
+        if slot == 0 && FIRST_DATA_MUTATION_STEP == u32::MAX {
+            FIRST_DATA_MUTATION_STEP = STEP;
+            LOG_MUTATIONS_AT_FIRST_DATA_MUTATION = LOG_MUTATIONS;
+        }
+        if slot == 1 {
+            LOG_MUTATIONS += 1;
+        }
+        STEP += 1;
+        now
     }
-    f.step += 1;
 }
 
 fn slot_of(name: &str) -> usize {
@@ -117,8 +264,12 @@ fn slot_of(name: &str) -> usize {
 #[derive(Debug)]
 pub struct File {
     slot: usize,
-    pos: std::sync::atomic::AtomicU64,
+    pos: std::cell::Cell<u64>,
 }
+
+// Kani executes sequentially; `Sync` only keeps `DbImpl<FileStorage>: Sync`
+// compiling for the crate's own tests in playback builds.
+unsafe impl Sync for File {}
 
 pub struct OpenOptions;
 
@@ -141,10 +292,11 @@ impl OpenOptions {
     pub fn open<P: AsRef<str>>(&self, name: P) -> Result<File> {
         Ok(File {
             slot: slot_of(name.as_ref()),
-            pos: std::sync::atomic::AtomicU64::new(0),
+            pos: std::cell::Cell::new(0),
         })
     }
 }
+
 
 impl File {
     /// only so that the crate's own unit tests still compile in playback builds
@@ -155,65 +307,181 @@ impl File {
     pub fn open<P: AsRef<str>>(name: P) -> Result<File> {
         Ok(File {
             slot: slot_of(name.as_ref()),
-            pos: std::sync::atomic::AtomicU64::new(0),
+            pos: std::cell::Cell::new(0),
         })
     }
 
+    #[allow(static_mut_refs)]
+    fn len(&self) -> usize {
+        unsafe {
+            if self.slot == 0 { DATA_LEN } else { LOG_LEN }
+        }
+    }
+
+    #[allow(static_mut_refs)]
     pub fn set_len(&self, len: u64) -> Result<()> {
         before_mutation(self.slot);
         kani::assume(len <= CAP as u64);
-        let st = &mut fs().files[self.slot];
         let len = len as usize;
-        // keep "bytes beyond len are zero"
-        if len < st.len {
-            st.data[len..st.len].fill(0);
+        let old = self.len();
+        unsafe {
+            if len > old {
+                // growth zero-fills
+                kani::assume(len - old <= SMALL);
+                if self.slot == 0 {
+                    unroll16!(i, {
+                        if old + i < len {
+                            DATA[old + i] = 0;
+                        }
+                    });
+                } else {
+                    unroll16!(i, {
+                        if old + i < len {
+                            LOG[old + i] = 0;
+                        }
+                    });
+                }
+            }
+            if self.slot == 0 {
+                DATA_LEN = len;
+            } else {
+                LOG_LEN = len;
+            }
         }
-        st.len = len;
         Ok(())
     }
 
     fn do_seek(&self, pos: SeekFrom) -> Result<u64> {
-        let len = fs().files[self.slot].len as u64;
+        let len = self.len() as u64;
         let new = match pos {
             SeekFrom::Start(p) => p,
             SeekFrom::End(o) => (len as i64).wrapping_add(o) as u64,
-            SeekFrom::Current(o) => (self.pos.load(std::sync::atomic::Ordering::Relaxed) as i64).wrapping_add(o) as u64,
+            SeekFrom::Current(o) => (self.pos.get() as i64).wrapping_add(o) as u64,
         };
         // std: seeking to a negative offset is an error
         if (new as i64) < 0 {
             return Err(Error::from(ErrorKind::InvalidInput));
         }
-        self.pos.store(new, std::sync::atomic::Ordering::Relaxed);
+        self.pos.set(new);
         Ok(new)
     }
 
+    #[allow(static_mut_refs)]
     fn do_read_exact(&self, buf: &mut [u8]) -> Result<()> {
-        let st = &fs().files[self.slot];
-        let pos = self.pos.load(std::sync::atomic::Ordering::Relaxed);
-        if pos > st.len as u64 || (st.len as u64 - pos) < buf.len() as u64 {
+        let len = self.len() as u64;
+        let pos = self.pos.get();
+        if pos > len || (len - pos) < buf.len() as u64 {
             return Err(Error::from(ErrorKind::UnexpectedEof));
         }
+        kani::assume(buf.len() <= SMALL);
         let pos = pos as usize;
-        buf.copy_from_slice(&st.data[pos..pos + buf.len()]);
-        self.pos.store((pos + buf.len()) as u64, std::sync::atomic::Ordering::Relaxed);
+        let n = buf.len();
+        unsafe {
+            if self.slot == 0 {
+                unroll16!(i, {
+                    if i < n {
+                        buf[i] = DATA[pos + i];
+                    }
+                });
+            } else {
+                unroll16!(i, {
+                    if i < n {
+                        buf[i] = LOG[pos + i];
+                    }
+                });
+            }
+        }
+        self.pos.set((pos + n) as u64);
         Ok(())
     }
 
+    #[allow(static_mut_refs)]
     fn do_write_all(&self, buf: &[u8]) -> Result<()> {
-        before_mutation(self.slot);
-        let st = &mut fs().files[self.slot];
-        let pos = self.pos.load(std::sync::atomic::Ordering::Relaxed);
-        kani::assume(pos <= CAP as u64 && buf.len() <= CAP - pos as usize);
+        let crashed_here = before_mutation(self.slot);
+        let pos = self.pos.get();
+        let n = buf.len();
+        kani::assume(n <= SMALL);
+        kani::assume(pos <= CAP as u64 && n <= CAP - pos as usize);
         let pos = pos as usize;
-        if buf.is_empty() {
-            // POSIX: a zero-length write does not extend the file
+        if n == 0 {
+            // a zero-length write does nothing (it does not extend the file)
             return Ok(());
         }
-        st.data[pos..pos + buf.len()].copy_from_slice(buf);
-        if pos + buf.len() > st.len {
-            st.len = pos + buf.len();
+        let old = self.len();
+        unsafe {
+            if pos > old {
+                // the gap [old, pos) reads as zeros
+                kani::assume(pos - old <= SMALL);
+                if self.slot == 0 {
+                    unroll16!(i, {
+                        if old + i < pos {
+                            DATA[old + i] = 0;
+                        }
+                    });
+                } else {
+                    unroll16!(i, {
+                        if old + i < pos {
+                            LOG[old + i] = 0;
+                        }
+                    });
+                }
+            }
+            if crashed_here {
+                // torn write: a strict prefix of this call reached the file
+                let t = TORN;
+                if t > 0 && t < n {
+                    if self.slot == 0 {
+                        unroll16!(i, {
+                            if old + i < pos {
+                                SNAP_DATA[old + i] = 0;
+                            }
+                        });
+                        unroll16!(i, {
+                            if i < t {
+                                SNAP_DATA[pos + i] = buf[i];
+                            }
+                        });
+                        if pos + t > SNAP_DATA_LEN {
+                            SNAP_DATA_LEN = pos + t;
+                        }
+                    } else {
+                        unroll16!(i, {
+                            if old + i < pos {
+                                SNAP_LOG[old + i] = 0;
+                            }
+                        });
+                        unroll16!(i, {
+                            if i < t {
+                                SNAP_LOG[pos + i] = buf[i];
+                            }
+                        });
+                        if pos + t > SNAP_LOG_LEN {
+                            SNAP_LOG_LEN = pos + t;
+                        }
+                    }
+                }
+            }
+            if self.slot == 0 {
+                unroll16!(i, {
+                    if i < n {
+                        DATA[pos + i] = buf[i];
+                    }
+                });
+                if pos + n > DATA_LEN {
+                    DATA_LEN = pos + n;
+                }
+            } else {
+                unroll16!(i, {
+                    if i < n {
+                        LOG[pos + i] = buf[i];
+                    }
+                });
+                if pos + n > LOG_LEN {
+                    LOG_LEN = pos + n;
+                }
+            }
         }
-        self.pos.store((pos + buf.len()) as u64, std::sync::atomic::Ordering::Relaxed);
+        self.pos.set((pos + n) as u64);
         Ok(())
     }
 }
